@@ -58,6 +58,21 @@ class Ownership:
         self.params = set(A.params_of(fi.node)) - {'self'}
         self.env = {}
         self.events = []     # (kind, stmt, target expr, target val, arg val)
+        # locals that hold a function: name -> the callables it may name
+        self.fn_alias = {}
+        for n in A.walk_no_nested(fi.node):
+            if isinstance(n, ast.Assign) and len(n.targets) == 1 and \
+                    isinstance(n.targets[0], ast.Name):
+                vals = [n.value]
+                if isinstance(n.value, ast.IfExp):
+                    vals = [n.value.body, n.value.orelse]
+                if all(isinstance(v, (ast.Name, ast.Attribute))
+                       for v in vals) and any(
+                        isinstance(c.func, ast.Name) and
+                        c.func.id == n.targets[0].id
+                        for c in A.calls_in(fi.node)):
+                    self.fn_alias.setdefault(n.targets[0].id, []).extend(
+                        vals)
 
     def ev(self, e):
         if e is None:
@@ -91,6 +106,16 @@ class Ownership:
             if out.shares:
                 out.level = SHALLOW
             return out
+        if isinstance(e, ast.Call) and isinstance(e.func, ast.Name) and \
+                e.func.id in self.fn_alias:
+            # a function chosen at run time: the weakest of the candidates
+            out = None
+            for cand in self.fn_alias[e.func.id]:
+                c2 = ast.Call(func=cand, args=e.args, keywords=e.keywords)
+                ast.copy_location(c2, e)
+                v = self.ev(c2)
+                out = v if out is None else out.join(v)
+            return out
         if isinstance(e, ast.Call):
             name = A.call_name(e)
             recv = A.call_receiver(e)
@@ -120,7 +145,11 @@ class Ownership:
             if name in USER_CALLBACKS:
                 # results of overridable hooks may be shared objects
                 return Val(SHARED, {'result of %s()' % name})
-            # other calls: assumed to return containers they own
+            # other calls: assumed to return containers they own; merges
+            # nested in their arguments still happen
+            for a in list(e.args) + [k.value for k in e.keywords]:
+                if any(isinstance(x, ast.Call) for x in ast.walk(a)):
+                    self.ev(a)
             return Val()
         return Val()
 
@@ -192,6 +221,15 @@ def check(ck):
     H.assoc_path_shape(ck, 'R16.9')
     H.deep_copy_internal_shape(ck, 'R16.9')
     r16_10(ck)
+    r16_11(ck)
+    from . import c10
+    ck.shared('R16.12', 'the engine publishes the parts of the composite it '
+              'was given, whatever they hold: in the composite branch of '
+              'Engine._make_store each of processes, steps, flow and '
+              'topology is the dictionary of the composite (an empty steps '
+              'dictionary does not make the flow disappear - steps may '
+              'live among the processes)',
+              c10.r10_9)
 
 
 def r16_10(ck):
@@ -345,9 +383,11 @@ def r16_1(ck):
         lname = src.id if isinstance(src, ast.Name) else 'merge_' + part
         for d in local_defs(f.node).get(lname, []):
             v = d.value
+            # assoc_in({}, path, <the local the part was collected in>)
             if isinstance(v, ast.Call) and A.call_name(v) == 'assoc_in' \
-                    and A.is_name(A.arg_of(v, 1), 'path') and A.is_name(
-                        A.arg_of(v, 2), lname):
+                    and A.is_name(A.arg_of(v, 1), 'path') and isinstance(
+                        A.arg_of(v, 2), ast.Name) and part in \
+                    _part_sources(f, A.arg_of(v, 2)):
                 ok = True
         ck.require(ok, 'R16.1', f, 'merge_%s at path' % part,
                    'the %s to merge are embedded at the given path' % part,
@@ -361,6 +401,37 @@ QUERY_FUNCS = [('Composite.initial_state', 'core.composer'),
                ('_get_composite_state_recur', 'core.composer'),
                ('Composite.generate_store', 'core.composer'),
                ('Composer.initial_state', 'core.composer')]
+
+
+GEN_FUNCS = [('Composer.generate', 'core.composer'),
+             ('Process.generate', 'core.process')]
+
+
+def r16_11(ck):
+    ck.rule('R16.11', 'generating does not write into the template: in '
+            'Composer.generate / Process.generate the mutated (first) '
+            'argument of a deep merge never shares nested dictionaries '
+            'with self.* (the stored configuration) or with a parameter - '
+            'a composer used several times yields the same composite each '
+            'time')
+    n = 0
+    for q, m in GEN_FUNCS:
+        f = ck.fn(q, m)
+        ow = Ownership(ck, f, 'R16.11')
+        for kind, stmt, tgt, tv, av, arg in ow.run():
+            if kind != 'deep':
+                continue
+            n += 1
+            bad = {s for s in tv.shares
+                   if s.startswith('self.') or s in ow.params}
+            ck.require(not bad, 'R16.11', f, stmt,
+                       'the configuration merged into is a private copy',
+                       'generate() deep-merges the per-call options into a '
+                       'dictionary that shares nested dictionaries with %s: '
+                       'options given to one generate() call stay in the '
+                       'composer and every later composite generated from '
+                       'it inherits them' % sorted(bad), stmt)
+    ck.floor('R16.11', n, 2, 'configuration merges in generate()')
 
 
 def r16_5(ck):
